@@ -10,7 +10,10 @@ From Engine Require Import Model.
 Import ListNotations.
 Open Scope N_scope.
 
-Record sint := mkSint { s_pid : nat; s_name : name; s_cbp : bool; s_dig : option key; s_deadline : time }.
+(* s_opt: Express returned an error (face.Send failed); such an Interest may still be called back (at most once, with a
+   sound result) but need not be *)
+Record sint := mkSintO { s_pid : nat; s_name : name; s_cbp : bool; s_dig : option key; s_deadline : time; s_opt : bool }.
+Definition mkSint (p : nat) (n : name) (c : bool) (d : option key) (dl : time) : sint := mkSintO p n c d dl false.
 
 Fixpoint name_eqb (a b : name) : bool :=
   match a, b with
@@ -45,6 +48,7 @@ Definition sinit : sstate := mkS 0 [] 0 [] [].
 Inductive sev :=
   | SAdvance (d : N)
   | SExpress (nm : name) (cbp : bool) (dig : option key) (life : option N)
+  | SExpressFail (nm : name) (cbp : bool) (dig : option key) (life : option N)
   | SData (dn : name) (dd : key)
   | SNack (nm : name) (dig : option key) (reason : N)
   | STimers                                  (* timeout closures ran at the current instant *)
@@ -151,6 +155,13 @@ Definition spec_step (s : sstate) (e : sev) (o : list obs) : sum sstate verdict 
                  (sp_pending s ++ [mkSint (sp_npid s) nm cbp dig (sp_now s + lifetime life)])
                  (S (sp_npid s)) (sp_handlers s) (sp_inc s))
       else inr VUnexpected
+  | SExpressFail nm cbp dig life =>
+      if obs_is o (ORet 1) then
+        if is_nil nm && is_none dig then inl s else
+        inl (mkS (sp_now s)
+                 (sp_pending s ++ [mkSintO (sp_npid s) nm cbp dig (sp_now s + lifetime life) true])
+                 (S (sp_npid s)) (sp_handlers s) (sp_inc s))
+      else inr VUnexpected
   | SData dn dd =>
       match check_data_cbs (sp_pending s) dn dd o with
       | inr v => inr v
@@ -209,9 +220,9 @@ Definition spec_step (s : sstate) (e : sev) (o : list obs) : sum sstate verdict 
 
 (* "every expressed Interest resolves": at the end of a complete history nothing is pending *)
 Definition spec_final (s : sstate) : option verdict :=
-  match sp_pending s with
-  | [] => None
-  | i :: _ => Some (VUnresolved (s_pid i))
+  match find (fun i => negb (s_opt i)) (sp_pending s) with
+  | None => None
+  | Some i => Some (VUnresolved (s_pid i))
   end.
 
 (* a whole history: events paired with their observations *)
@@ -230,6 +241,7 @@ Definition sev_of (e : ev) : sev :=
   match e with
   | EAdvance d => SAdvance d
   | EExpress nm cbp dig life => SExpress nm cbp dig life
+  | EExpressFail nm cbp dig life => SExpressFail nm cbp dig life
   | EData dn dd => SData dn dd
   | ENack nm dig reason => SNack nm dig reason
   | EFire _ => STimers
